@@ -18,11 +18,9 @@ INST = [
 
 def native_replay(rp, workroot):
     from engine.core import replay_bin
-    descs = " ".join(f["description"] for f in rp["failed_checks"])
-    if rp["harness"].startswith("c26_seq") and "probe requests" in descs:
-        return replay_bin("c26", ["probes"])
-    if "opened" in descs and rp["harness"].startswith("c26_seq"):
-        return replay_bin("c26", ["opens"])
+    if rp["harness"].startswith("c26_seq"):
+        # bounded native search with the same oracles over the real source file (single thread, real clock)
+        return replay_bin("c26", ["search"])
     return None, "interleaving counterexample: natively reproducible only under a forced schedule (no hooks in /repo); reported from the solver trace"
 
 
